@@ -98,6 +98,21 @@ AppendC(id, len, src) ==
                     /\ Effect(lab, IF AsBuiltShort THEN "Ok" ELSE "EShort")
                ELSE /\ wst' = wst /\ Effect(lab, "Ok")
 
+\* ---- helpers::StreamWriter::write(buf): an append of exactly buf, through the io::Write adaptor ---------------------------
+\* (errors of the writer surface as io errors: class "EIo")
+SWrite(id, len) ==
+  LET lab == [op |-> "swrite", id |-> id, len |-> len, piece |-> nops] IN
+  /\ nops' = nops + 1
+  /\ IF wst # "open" \/ id \notin opened THEN Refuse(lab, "EIo")
+     ELSE IF len = 0 THEN Refuse(lab, "Ok")
+     ELSE LET i1 == Mark(info, id) IN
+          /\ curId' = id /\ info' = [i1 EXCEPT ![id + 1].size = @ + len]
+          /\ stream' = Append(stream, [t |-> "C", id |-> id, off |-> pos, len |-> len, got |-> len, piece |-> nops])
+          /\ pos' = pos + 17 + len
+          /\ content' = [content EXCEPT ![id + 1] = Append(@, <<nops, len>>)]
+          /\ UNCHANGED <<opened, nextId, names, wst>>
+          /\ Effect(lab, "Ok")
+
 \* ---- end_file ---------------------------------------------------------------------------------
 EndBody(id, lab) ==
   IF wst # "open" \/ id \notin opened THEN Refuse(lab, "EState")
@@ -174,6 +189,10 @@ Next ==
               /\ (src = "short" => len > 0)
               /\ (OnlyValid => (wst = "open" /\ id \in opened /\ src # "short"))
               /\ AppendC(id, len, src)
+     \/ /\ "swrite" \in Calls
+        /\ \E id \in IdsOffered, len \in LensNow :
+              /\ (OnlyValid => (wst = "open" /\ id \in opened))
+              /\ SWrite(id, len)
      \/ /\ "end" \in Calls
         /\ \E id \in IdsOffered : (OnlyValid => (wst = "open" /\ id \in opened)) /\ End(id)
      \/ /\ "add" \in Calls
